@@ -377,7 +377,7 @@ func TestC03(t *testing.T) {
 	}
 
 	p = c.rec.NewPart("rapid_case_masks", "rapid: kept triple x separator assignment x per-letter case mask", true, false, "")
-	c.Rapid(p, 8, pick(12000, 400000), func(rt *rapid.T, sh int) ev.Case {
+	c.Rapid(p, 8, pick(60000, 600000), func(rt *rapid.T, sh int) ev.Case {
 		i := kt[rapid.IntRange(0, len(kt)-1).Draw(rt, "triple")]
 		sm := rapid.IntRange(0, len(g.Seps)+nMixed-1).Draw(rt, "sep")
 		s := g.derive(i, sm*nCaseFix)
